@@ -37,7 +37,8 @@ class Run:
         self.nidx = {}
         self.nss = [""]
         self.root = None
-        self.tree = None
+        self.roots = None      # all models under construction, in processing order
+        self.trees = None
         self.n_user = 0
         self.n_init = 0
         self.user_names = set(case["user"])
@@ -78,10 +79,21 @@ class Run:
             self.n_user += 1
         for a in self.metaclass(obj)._tx_attrs.values():
             if a.cont:
-                v = getattr(obj, a.name)
+                v = getattr(obj, a.name, None)
                 for x in (v if isinstance(v, list) else [v]):
                     if x is not None:
                         self.assign_ids(x)
+
+    def snapshot_models(self):
+        """The models under construction in the order they are processed, their objects
+        identified, and their linked trees before any replacement."""
+        if self.trees is not None or self.root is None:
+            return
+        from textx.scoping import get_included_models
+        self.roots = [m for m in get_included_models(self.root) if hasattr(m, "_tx_fqn")]
+        for m in self.roots:
+            self.assign_ids(m)
+        self.trees = [self.dump(m) for m in self.roots]
 
     def atom(self, v):
         if isinstance(v, bool):
@@ -164,8 +176,7 @@ class Run:
 
     def mk_proc(self, name):
         def proc(obj):
-            if self.tree is None and self.root is not None:
-                self.tree = self.dump(self.root)     # linked model, before any replacement
+            self.snapshot_models()                   # linked models, before any replacement
             isobj = self.is_obj(obj)
             self.events.append({"k": "proc", "pn": name, "p": self.name_idx(name),
                                 "id": self.ids[id(obj)] if isobj else 0,
@@ -218,9 +229,16 @@ def run_case(case):
         for n in case.get("match_rules", []):
             procs[n] = run.mk_match_proc(n)
         mm.register_obj_processors(procs)
+        multi = bool(case.get("files"))
+        if multi:
+            from textx.scoping.providers import PlainNameImportURI
+
+            class Rec(PlainNameImportURI):
+                def __call__(self, obj, attr, obj_ref):
+                    return provider(obj, attr, obj_ref, PlainNameImportURI.__call__.__get__(self))
         plain = PlainName()
 
-        def provider(obj, attr, obj_ref):
+        def provider(obj, attr, obj_ref, plain=plain):
             if case.get("postpone_bad") and obj_ref.obj_name == "zz9":
                 # a provider that never resolves this name: the load must end with
                 # "Unresolvable cross references" and no object processor may run
@@ -231,26 +249,35 @@ def run_case(case):
             run.events.append({"k": "resolve", "attr": attr.name, "name": obj_ref.obj_name,
                                "found": res is not None and type(res).__name__ != "Postponed"})
             return res
-        mm.register_scope_providers({"*.*": provider})
+        mm.register_scope_providers({"*.*": Rec() if multi else provider})
 
         def pre(model):
             run.root = model
             run.assign_ids(model)
         try:
-            model = mm.model_from_str(case["model"], pre_ref_resolution_callback=pre)
+            if multi:
+                for fn, text in case["files"].items():
+                    with open(os.path.join(d, fn), "w") as f:
+                        f.write(text)
+                with open(os.path.join(d, "main.m"), "w") as f:
+                    f.write(case["model"])
+                model = mm.model_from_str(case["model"], file_name=os.path.join(d, "main.m"),
+                                          pre_ref_resolution_callback=pre)
+            else:
+                model = mm.model_from_str(case["model"], pre_ref_resolution_callback=pre)
             out["ok"] = True
         except Exception as e:  # noqa
             out["error_type"] = type(e).__name__
-            out["error"] = str(e)[:300]
+            out["error"] = str(e)[:300].replace(d, "<tmp>")
             model = None
         if out["ok"]:
-            if run.tree is None:
-                run.tree = run.dump(model)
-            rootcls = mm[type(model).__name__]
-            out["root_d"] = run.cref(rootcls)
-            out["root_match"] = rootcls._tx_type is RULE_MATCH
-            out["tree"] = run.tree
-            out["final"] = run.show(run.dump(model))
+            run.root = model
+            run.snapshot_models()
+            out["models"] = []
+            for m, t in zip(run.roots, run.trees):
+                rootcls = mm[type(m).__name__]
+                out["models"].append({"root_d": run.cref(rootcls), "root_match": rootcls._tx_type is RULE_MATCH,
+                                      "tree": t, "final": run.show(run.dump(m))})
         out["events"] = run.events
         out["names"] = run.names
         out["nss"] = run.nss
